@@ -106,11 +106,22 @@ type c17Model struct {
 	reason      string
 	userRsvMade bool
 	otherMade   bool
+	podPending  bool // the original target pod is still unscheduled (pending-pod configuration)
+	// the original target pod started unscheduled and has meanwhile been scheduled (to node-b)
+	podWasPending bool
 }
 
 func (m *c17Model) podNode() string {
 	switch m.pod {
-	case c17POrig, c17PReplacedA:
+	case c17POrig:
+		if m.podPending {
+			return ""
+		}
+		if m.podWasPending {
+			return c17NodeB
+		}
+		return c17NodeA
+	case c17PReplacedA:
 		return c17NodeA
 	case c17PReplacedB:
 		return c17NodeB
@@ -133,6 +144,7 @@ type c17Cfg struct {
 	depth     int
 	replaceA  bool // also: pod replaced on its old node
 	legacy    bool // also: legacy Failed/Unschedulable reservation state
+	pending   bool // the target pod is a Pending, unschedulable pod (migration of a pending pod: nothing to evict)
 	// prefix is a fixed, legitimate event sequence executed before the exploration starts (a deeper starting point:
 	// the BFS then covers every continuation of that prefix up to depth)
 	prefix []string
@@ -156,6 +168,7 @@ const (
 	c17OpPodReplacedB
 	c17OpPodReplacedA
 	c17OpNewPodReady
+	c17OpTargetScheduled
 	c17OpTick
 	c17OpRestart
 )
@@ -197,6 +210,9 @@ func c17BuildOps(cfg *c17Cfg) []c17Op {
 	)
 	if cfg.replaceA {
 		ops = append(ops, c17Op{"pod-replaced-on-node-a", c17OpPodReplacedA, 0})
+	}
+	if cfg.pending {
+		ops = append(ops, c17Op{"pending-target-pod-scheduled", c17OpTargetScheduled, 0})
 	}
 	ops = append(ops,
 		c17Op{"clock-passes-ttl", c17OpTick, 0},
@@ -500,6 +516,12 @@ func c17NewSys(cfg *c17Cfg, res *mc.Result) *c17Sys {
 		job.Spec.ReservationOptions = &sev1alpha1.PodMigrateReservationOptions{ReservationRef: &corev1.ObjectReference{Name: c17UserRsv}}
 	}
 	pod := c17Pod(c17PodName, c17PodUID1, c17NodeA)
+	if cfg.pending {
+		pod.Spec.NodeName = ""
+		pod.Status = corev1.PodStatus{Phase: corev1.PodPending, Conditions: []corev1.PodCondition{
+			{Type: corev1.PodScheduled, Status: corev1.ConditionFalse, Reason: corev1.PodReasonUnschedulable, Message: "0/2 nodes are available"}}}
+		s.m.podPending = true
+	}
 	// The plain client-go object tracker (what controller-runtime's fake client used before it learned server-side
 	// apply) instead of the default field-managed one: building the latter constructs a whole client-go scheme and a
 	// REST mapper per client (milliseconds), and managed fields are of no concern to this controller. Resource
@@ -656,7 +678,10 @@ func (s *c17Sys) Apply(op int, check bool) (bool, []mc.Violation) {
 			s.must(s.cl.Create(context.TODO(), p))
 			m.rsv, m.otherMade = c17RBoundOther, true
 		} else {
-			if (m.pod == c17PReplacedA || m.pod == c17PReplacedB) && m.podNode() == m.rsvNode {
+			if m.pod == c17POrig && m.podPending {
+				// migration of a pending pod: the reservation is owned by, and consumed by, the target pod itself
+				owner.Name, owner.UID = c17PodName, c17PodUID1
+			} else if (m.pod == c17PReplacedA || m.pod == c17PReplacedB) && m.podNode() == m.rsvNode {
 				// StatefulSet-like: the same-name replacement of the target pod is the pod that consumes the reservation
 				owner.Name, owner.UID = c17PodName, c17PodUID2
 			} else {
@@ -679,6 +704,15 @@ func (s *c17Sys) Apply(op int, check bool) (bool, []mc.Violation) {
 			s.must(s.cl.Update(context.TODO(), p))
 		}
 		m.newPod = 2
+	case c17OpTargetScheduled:
+		if !s.cfg.pending || m.pod != c17POrig || !m.podPending {
+			return false, nil
+		}
+		p := s.getPod(c17PodName)
+		p.Spec.NodeName = c17NodeB
+		p.Status.Conditions = []corev1.PodCondition{{Type: corev1.PodScheduled, Status: corev1.ConditionTrue}}
+		s.must(s.cl.Update(context.TODO(), p))
+		m.podPending, m.podWasPending = false, true
 	case c17OpPodDeleted:
 		if m.pod == c17PDeleted {
 			return false, nil
@@ -922,7 +956,11 @@ func (s *c17Sys) Key() string {
 		sb.WriteString("}")
 	}
 	if p := sn.pod; p != nil {
-		fmt.Fprintf(&sb, " pod{%s,%s,ready=%v}", p.UID, p.Spec.NodeName, c17Ready(p))
+		fmt.Fprintf(&sb, " pod{%s,%s,%s,ready=%v", p.UID, p.Spec.NodeName, p.Status.Phase, c17Ready(p))
+		for _, c := range p.Status.Conditions {
+			fmt.Fprintf(&sb, ",%s=%s", c.Type, c.Status)
+		}
+		sb.WriteString("}")
 	}
 	if p := sn.newPod; p != nil {
 		fmt.Fprintf(&sb, " newpod{%s,ready=%v}", p.Spec.NodeName, c17Ready(p))
@@ -934,8 +972,8 @@ func (s *c17Sys) Key() string {
 	s.r.assumedCache.lock.Lock()
 	cached := len(s.r.assumedCache.items)
 	s.r.assumedCache.lock.Unlock()
-	fmt.Fprintf(&sb, " model{rsv=%s@%s,delByCtl=%v,pod=%s,gen=%d,newpod=%d/%s,ttl=%v,faults=%d,evicts=%d,userRsv=%v,other=%v,cache=%d}",
-		c17RNames[m.rsv], m.rsvNode, m.rsvDelByCtl, c17PNames[m.pod], m.podGen, m.newPod, m.newPodName, m.afterTTL, m.faults, ev, m.userRsvMade, m.otherMade, cached)
+	fmt.Fprintf(&sb, " model{rsv=%s@%s,delByCtl=%v,pod=%s,gen=%d,newpod=%d/%s,ttl=%v,faults=%d,evicts=%d,userRsv=%v,other=%v,pending=%v/%v,cache=%d}",
+		c17RNames[m.rsv], m.rsvNode, m.rsvDelByCtl, c17PNames[m.pod], m.podGen, m.newPod, m.newPodName, m.afterTTL, m.faults, ev, m.userRsvMade, m.otherMade, m.podPending, m.podWasPending, cached)
 	return sb.String()
 }
 
@@ -997,7 +1035,10 @@ func c17Run(t *testing.T, env *mc.Env, cfg *c17Cfg) {
 		if cfg.maxFaults > 0 {
 			need = append(need, "reconciles_with_injected_fault")
 		}
-		need = append(need, "evict_calls")
+		need = append(need, "reconcile_of_finished_job(Failed)", "finished_by:Failed/Timeout")
+		if !cfg.pending {
+			need = append(need, "evict_calls", "reconcile_of_finished_job(Succeeded)")
+		}
 		for _, n := range need {
 			if res.Counters[n] == 0 {
 				res.Diag("VACUITY WARNING: counter " + n + " is zero")
@@ -1026,5 +1067,8 @@ func TestVerifC17Aux(t *testing.T) {
 	if env.Thorough() {
 		c17Run(t, env, &c17Cfg{name: "rf-preset-ref-hist", kind: "preset", mode: sev1alpha1.PodMigrationJobModeReservationFirst, presetRef: true,
 			maxFaults: 1, depth: 8, legacy: true})
+		// migration of a Pending pod: the reservation is owned by the pod itself, nothing is to be evicted
+		c17Run(t, env, &c17Cfg{name: "rf-pending-pod-hist", kind: "pendingpod", mode: sev1alpha1.PodMigrationJobModeReservationFirst, pending: true,
+			maxFaults: 1, depth: 8})
 	}
 }
